@@ -261,7 +261,13 @@ Theorem C04_stored_headers_in_buffer_whatever_the_verdict : forall flags B offs 
   let inb (h : hdr) := pf_end (h_name h) <= nnat (length B) /\ pf_end (h_val h) <= nnat (length B) in
   Forall inb (hl_hdrs (hs_l (m_hs m'))) /\ inb (hl_tmp (hs_l (m_hs m'))) /\ Forall inb (hl_first (hs_l (m_hs m'))).
 Proof. exact message_hwb_fed. Qed.
+Theorem C04_body_and_raw_span_in_buffer_whatever_the_verdict : forall flags B offs bl n nc o s o' e m', testbit flags bSIPMsgNoMoreData = false -> offs <= nnat (length B) ->
+  feeds flags B offs (msg_init bl (repeat hdr0 n) (repeat pfrom0 nc)) o s ->
+  parse_sipmsg flags B o s = Done o' e m' ->
+  pf_end (m_body m') <= nnat (length B) /\ match m_raw m' with Some (a, l) => a + l <= nnat (length B) | None => True end.
+Proof. exact message_body_wb_fed. Qed.
 Print Assumptions C04_values_in_buffer_whatever_the_verdict.
+Print Assumptions C04_body_and_raw_span_in_buffer_whatever_the_verdict.
 Print Assumptions C04_first_line_in_buffer_whatever_the_verdict.
 Print Assumptions C04_stored_headers_in_buffer_whatever_the_verdict.
 Print Assumptions C04_values_in_buffer_whatever_the_verdict_fed.
